@@ -127,3 +127,36 @@ Theorem C04_history_root_ids_after_rejuvenate :
     rids_ok (s_levels (fst (step st (3, 0, 0, 0, 0)))).
 Proof. exact history_rids_after_rejuvenate. Qed.
 Print Assumptions C04_history_root_ids_after_rejuvenate.
+
+(* mapper.py over the depth: the root indices of all events of a child are
+   the parent's root indices restricted to the parent's filter. *)
+Theorem C04_child2root_composes :
+  forall (p : level) (anc : list level) (Rp : list Z),
+    c2r anc (iota 0 (length (f_all (l_filt p)))) = Some Rp ->
+    c2r (p :: anc) (iota 0 (count_true (f_all (l_filt p))))
+    = Some (select (f_all (l_filt p)) Rp).
+Proof. exact c2r_child. Qed.
+Print Assumptions C04_child2root_composes.
+
+(* The non-scalar features (image; mask, contour and trace use the same
+   code) are read event by event through these index maps up to the root:
+   for a child that is a view of its parent (len) whose parent's filter has
+   one entry per event and can itself be mapped to the root, the column is
+   the parent's column restricted to the parent's filter. *)
+Theorem C04_nonscalar_child_is_view :
+  forall (img : list Z) (c p : level) (anc : list level) (Rp : list Z),
+    view_of c p ->
+    l_len p = Z.of_nat (length (f_all (l_filt p))) ->
+    c2r anc (iota 0 (length (f_all (l_filt p)))) = Some Rp ->
+    image_ids img (p :: anc) (l_len c)
+    = select (f_all (l_filt p)) (image_ids img anc (l_len p)).
+Proof. exact image_child_is_view. Qed.
+Print Assumptions C04_nonscalar_child_is_view.
+
+(* parent2child inverts child2parent on the events of the child. *)
+Theorem C04_parent2child_inverts_child2parent :
+  forall p : level,
+    option_map (p2c p) (c2p p (iota 0 (count_true (f_all (l_filt p)))))
+    = Some (iota 0 (count_true (f_all (l_filt p)))).
+Proof. exact p2c_c2p_all. Qed.
+Print Assumptions C04_parent2child_inverts_child2parent.
